@@ -1,4 +1,4 @@
-import FxVerif.Proofs.C11Sanity
+import FxVerif.Proofs.C11Unslashed
 /-!
 # C11 — transferring delegation shares conserves shares, stake and reward entitlements
 
@@ -525,6 +525,23 @@ theorem still_withdrawable_iff (nAcc h0 : Nat) (vals : List (Nat × Nat)) (hv : 
     have hwr := key.mpr ht
     exact ⟨withdrawMsg_sanity_of hwr, unbond_sanity_of hdel hwr⟩
 
+/-- **still_withdrawable_unslashed** — `still_withdrawable` at full strength for every validator that the history never
+slashes (whatever happens to the other validators): after any sequence of delegate / undelegate / redelegate / withdraw /
+approve / transfer / transferFrom / reward allocation / block / jail / unjail operations, and slashes of *other*
+validators, every delegator of the validator can withdraw its rewards (the delegation stays) and undelegate all of its
+shares (the delegation is removed), at any height.  The proof keeps the validator at exactly one share per token, every
+delegation a whole number of shares and every starting stake equal to the delegator's shares — through the
+hand-written starting infos of `handlerTransferShares` too — so the SDK's sanity check compares a number with itself. -/
+theorem still_withdrawable_unslashed (nAcc h0 : Nat) (vals : List (Nat × Nat)) (hv : vals.length ≤ nAcc) (ops : List Op)
+    {w : Nat} (hw : w < vals.length) (hns : ∀ o, o ∈ ops → ∀ p f, o ≠ .slash w p f)
+    (h d sh : Nat) (hdel : (reachVS nAcc h0 vals ops w).del d = some sh) :
+    (∃ v' c, (reachVS nAcc h0 vals ops w).withdrawMsg h d = .ok (v', c) ∧ v'.del d = some sh) ∧
+    (∃ v' ret c, (reachVS nAcc h0 vals ops w).unbond h d sh = .ok (v', ret, c) ∧ v'.del d = none) := by
+  have hi : VInv nAcc (reachVS nAcc h0 vals ops w) := reach_SInv cfg_good nAcc h0 vals hv ops hw
+  have hn : NS (reachVS nAcc h0 vals ops w) :=
+    run_NS cfg_good ops (init nAcc h0 vals) (init_SInv hv) (init_NS nAcc h0 vals w) hns
+  exact (still_withdrawable_iff nAcc h0 vals hv ops hw h d sh hdel).1 (NS_not_sanity hi.sum hn h d)
+
 /-- **the exception in `still_withdrawable_partial` is real.**  `still_withdrawable` at full strength is false of the SDK's
 18-decimal arithmetic, without any share transfer: slash a validator of 10^20 tokens by 100 base units (fraction
 10⁻¹⁸), let someone delegate one base unit, slash by 100 base units again — the second effective fraction
@@ -798,6 +815,19 @@ example : (demo.vs 0).sanityFires (demo.height + 3) 1 = false ∧ (demo.vs 0).sa
     (demo.vs 0).slashes.length = 1 := by decide
 example : (reachVS 2 1 [(100000000000000000000, 0)] [.slash 0 1 1, .delegate 1 0 1, .slash 0 1 1] 0).sanityFires 3 0 = true := by
   decide
+-- still_withdrawable_unslashed: a history with transfers, an undelegation and a redelegation that slashes only the OTHER
+-- validator meets the hypothesis, and validator 0 has three delegators
+def unslashedOps : List Op :=
+  [.delegate 2 0 700, .delegate 3 1 300, .alloc 0 50, .block, .transfer 2 3 0 200, .undelegate 2 0 100,
+   .redelegate 3 1 0 50, .slash 1 1 100000000000000000, .transfer 3 2 0 30]
+example : ∀ o, o ∈ unslashedOps → ∀ p f, o ≠ .slash 0 p f := by
+  intro o ho p f hc
+  subst hc
+  simp [unslashedOps] at ho
+example :
+    ((reachVS 4 1 [(200000000000000000000, 0), (200000000000000000000, 0)] unslashedOps 0).del 2).isSome ∧
+    ((reachVS 4 1 [(200000000000000000000, 0), (200000000000000000000, 0)] unslashedOps 0).del 3).isSome ∧
+    (reachVS 4 1 [(200000000000000000000, 0), (200000000000000000000, 0)] unslashedOps 1).slashes.length = 1 := by decide
 -- refcount_invariant: the demo history has a record referenced twice (current period + a starting info), one
 -- referenced by the slash event, and three starting infos (operator, sender, recipient)
 example : (demo.vs 0).refs ((demo.vs 0).period - 1) = 2 ∧ slashCnt (demo.vs 0) 5 = 1 ∧ (demo.vs 0).refs 5 = 1 ∧
